@@ -37,6 +37,8 @@ def run(ctx, rep):
     from . import c08
     rep.guarded("R08-VERSION", lambda: c08.r_version(sh, rep))
     rep.guarded("R08-DERIVED", lambda: c08.r_derived(sh, rep))
+    rep.rule("R18-ZIP", "Parameter::validate compares the number of fields / elements wherever it walks a value and its schema in lockstep: zip stops at the shorter side", floor=1)
+    rep.guarded("R18-ZIP", lambda: r_zip(sh, rep))
     rep.rule("R18-TOTAL", "no unreviewed panic site reachable from Validator::apply / Parameter::validate / Blueprint::apply_parameter", floor=3)
     from . import c20
     def total():
@@ -55,7 +57,12 @@ def r_apply(sh, rep):
     f = [fn for fn in find_method(sh.file(V), "Validator", "apply", all_=True)][0]
     rep.touched(V, "Validator::apply")
     arg = f["sig"]["inputs"][-1]["pat"]["name"]
-    m = next(matches_in(f["body"], lambda e: e["k"] == "MethodCall" and e["m"] == "split_first"))
+    # whatever the form: an application too many is an error, never a silent extra argument
+    errs = [n for n in walk(f["body"]) if n.get("k") in ("Call", "Return", "Path") and "NoParametersToApply" in sh.nsrc(V, n)]
+    rep.check(bool(errs), "R18-APPLY", "apply#an-application-too-many-is-Err", sh.loc(V, f), "Validator::apply has no exit with Error::NoParametersToApply: applied once more than it has parameters, the validator takes the argument into its code and hash with no schema consulted")
+    m = next(matches_in(f["body"], lambda e: e["k"] == "MethodCall" and e["m"] == "split_first"), None)
+    if m is None:
+        raise AnchorMissing("`match self.parameters.split_first()` in Validator::apply")
     recv_ok = sh.nsrc(V, m["e"]) == "self.parameters.split_first()"
     rep.check(recv_ok, "R18-APPLY", "apply#splits-own-parameters", sh.loc(V, m), "apply must split self.parameters (found `%s`)" % sh.nsrc(V, m["e"])[:60])
     some = none = None
@@ -171,3 +178,36 @@ def r_params(sh, rep):
         var = loops[0]["pat"]["name"] if loops[0]["pat"]["k"] == "Ident" else "?"
         okb = any(c["k"] == "MethodCall" and c["m"] == "apply_data" and sh.nsrc(TX, c["args"][0]) == var for c in walk(loops[0]["body"]))
         rep.check(okb, "R18-PARAMS", "apply_params_to_script#through-apply_data", sh.loc(TX, loops[0]), "each parameter must go through Program::apply_data(param)")
+
+
+def r_zip(sh, rep):
+    """validate_data pairs the fields of a constructor (the items of a tuple) with their schemas by zip. zip truncates:
+    without a comparison of the two lengths in the enclosing block, a value with too few or too many fields conforms."""
+    PRM = "crates/aiken-project/src/blueprint/parameter.rs"
+    n = 0
+    for q, f in all_fns(sh.file(PRM)):
+        if "body" not in f:
+            continue
+        for node, anc in walk_parents(f["body"]):
+            is_zip = (node.get("k") == "MethodCall" and node["m"] == "zip") or (node.get("k") == "Call" and last(call_name(node) or "") == "zip")
+            if not is_zip:
+                continue
+            n += 1
+            rep.touched(PRM, q)
+            ops = [sh.nsrc(PRM, a) for a in (node["args"] if node["k"] == "Call" else [node["recv"]] + node["args"])]
+            names = [re.sub(r"\.(iter|into_iter|clone|as_slice)\(\)|[&*]", "", o) for o in ops]
+            # nearest enclosing blocks / arms, innermost first: a length comparison naming both operands must come before the zip
+            found = False
+            for a in reversed(anc):
+                if a.get("k") not in ("Block", "Arm", "If", "IfLet", "For"):
+                    continue
+                for b in walk(a):
+                    if b.get("k") == "Binary" and b["op"] in ("==", "!=", "<", ">") and b["s"][0] <= node["s"][0]:
+                        bs = sh.nsrc(PRM, b)
+                        if ".len()" in bs and all(nm.split(".")[0].split("(")[0] in bs for nm in names if nm):
+                            found = True
+                if found:
+                    break
+            rep.check(found, "R18-ZIP", "%s#zip#%d" % (q, n), sh.loc(PRM, node), "%s walks `%s` and `%s` in lockstep without comparing their lengths first: zip stops at the shorter one, so a constructor given too few or too many fields conforms to the schema and is applied" % (q, names[0][:30], names[1][:30] if len(names) > 1 else "?"), sample={"operands": names})
+    if n < 1:
+        raise AnchorMissing("zip of values and schemas in blueprint/parameter.rs")
